@@ -84,11 +84,14 @@ structure Params where
       statement list where the net/rpc default is assigned — so the check also covers the protocol that
       was DEFAULTED for a four-field (legacy) line, not only a protocol read from the line -/
   allowedCheckCoversDefault : Bool
+  /-- `reattach()` compares the protocol of the `ReattachConfig` (net/rpc when empty) with `AllowedProtocols` and returns
+      an error BEFORE it attaches to anything — the allowed list is not only a filter on handshake lines -/
+  reattachChecksAllowed : Bool
   deriving DecidableEq, Repr
 
 def Params.Good (P : Params) : Prop :=
   P.defaultAllowedNetrpcOnly = true ∧ P.reattachMuxRefused = true ∧ P.autoTlsAtStart = true ∧ P.dialsUseTlsConfig = true ∧
-  P.allowedCheckCoversDefault = true
+  P.allowedCheckCoversDefault = true ∧ P.reattachChecksAllowed = true
 
 instance (P : Params) : Decidable P.Good := by unfold Params.Good; exact inferInstance
 
@@ -162,12 +165,17 @@ def classify : Handshake.ErrKind → StartErr
   | .muxUnsupported => .mux
   | _ => .other
 
+/-- the protocol a `ReattachConfig` taken from this plugin names -/
+def wireOf (pc : PlugC) : Bytes := if pc.grpc then Handshake.sGrpc else Handshake.sNetrpc
+
 /-- the composition, for a plugin `pc` that prints either its `Serve` line or the legacy line -/
 def composeLine (I : Params) (P : Handshake.Params) (hc : HostC) (pc : PlugC) (legacy : Bool) : Verdict :=
   if hc.launch = .reattach ∧ hc.mux ∧ I.reattachMuxRefused then .startErr .optionConflict   -- refused before anything is launched
   else if hc.launch = .reattach then
     -- no handshake line: address and protocol come from the ReattachConfig
-    connect I hc pc
+    if I.reattachChecksAllowed ∧ ¬ (wireOf pc ∈ allowedList I hc.allowed) then
+      .startErr .protocol
+    else connect I hc pc
   else
     match Handshake.start P (hostCfgOf I hc legacy) extOk (.line (if legacy then legacyLine else lineOf hc pc)) with
     | .ok _ _ _ => connect I hc pc
@@ -191,6 +199,7 @@ def protoAllowed (hc : HostC) (pc : PlugC) : Bool :=
 def expected (hc : HostC) (pc : PlugC) : Verdict :=
   if hc.launch = .reattach then
     if hc.mux then .startErr .optionConflict
+    else if !protoAllowed hc pc then .startErr .protocol
     else if hostTls hc = plugTls hc pc then .works else .firstUseErr
   else if !protoAllowed hc pc then .startErr .protocol
   else if hc.mux && pc.grpc && !pc.advMux then .startErr .mux
